@@ -45,6 +45,8 @@ def evaluate(ck, c, stream, want_native=True):
         ns = S.native_segments(c)
         if ns is None and S.ref_fault_test(c) is not None and c.r_native and c.r_native['cls'] == 'exit' and c.r_native['rc'] == 1:
             pass            # the binary stops at the same assertion (assert aborts with exit 1)
+        elif ns is None and c.ref_a['cls'] == 'fault-oob' and c.r_native and c.r_native['cls'] == 'signal6':
+            pass            # the binary stops at the same out-of-range access (the runtime's index assertion aborts)
         elif ns is None:
             res['native_unavailable'] = c.r_native['cls'] if c.r_native else 'not-run'
         else:
@@ -59,6 +61,11 @@ def evaluate(ck, c, stream, want_native=True):
         if k < len(ex) and ex[k][2] != 'FAILED':
             res['ref'] = ['reference: test %s executes a false assertion inside a called function; at compile time it is %s' % (ex[k][0], ex[k][2])]
         res['native_expected_abort'] = True
+    elif c.ref_a['cls'] == 'fault-oob':
+        # the reference stops at an out-of-range (at a i) during some test: compile-time evaluation must stop there too
+        # (nanoc: "Runtime Error: Array index ... out of bounds", exit 1, no executable)
+        if c.r_rc == 0 or c.r_binary:
+            res['ref'] = ['reference: a shadow test indexes an array out of range; nanoc exits %s, executable=%s' % (c.r_rc, c.r_binary)]
     else:
         res['ref_unavailable'] = c.ref_a['cls']
     res['tie'] = S.cmp_model(c)
